@@ -17,6 +17,10 @@ impl TraceRoot for Vm {
     self.fiber.trace();
     self.main_fiber.trace();
     self.fiber_queue.iter().for_each(|fiber| fiber.trace());
+    for (importer, import_fiber) in &self.pending_imports {
+      importer.trace();
+      import_fiber.trace();
+    }
     self.files.trace();
     self.packages.trace();
     self.module_cache.trace();
@@ -32,6 +36,10 @@ impl TraceRoot for Vm {
     self.fiber.trace_debug(log);
     self.main_fiber.trace_debug(log);
     self.fiber_queue.iter().for_each(|fiber| fiber.trace_debug(log));
+    for (importer, import_fiber) in &self.pending_imports {
+      importer.trace_debug(log);
+      import_fiber.trace_debug(log);
+    }
     self.files.trace_debug(log);
     self.packages.trace_debug(log);
     self.module_cache.trace_debug(log);
